@@ -383,7 +383,7 @@ func checkC16Bad(job *Job, res *Result) {
 		cat := catalogue()
 		k := 0
 		for _, name := range names {
-			if name == "FOLLOW" || name == "REPLCONF" || name == "AOFSHRINK" || name == "READONLY" || name == "CONFIG SET" || name == "CONFIG REWRITE" || name == "FLUSHDB" || name == "DROP" {
+			if name == "FOLLOW" || name == "SLAVEOF" || name == "REPLCONF" || name == "AOFSHRINK" || name == "READONLY" || name == "CONFIG SET" || name == "CONFIG REWRITE" || name == "FLUSHDB" || name == "DROP" {
 				continue
 			}
 			for _, shape := range cat[name] {
@@ -431,7 +431,7 @@ func checkC16Bad(job *Job, res *Result) {
 // commands that would legitimately change what the bystander reads
 func mutatesBystander(v []string) bool {
 	switch strings.ToUpper(v[0]) {
-	case "FLUSHDB", "DROP", "RENAME", "RENAMENX", "READONLY", "FOLLOW", "CONFIG", "SHUTDOWN":
+	case "FLUSHDB", "DROP", "RENAME", "RENAMENX", "READONLY", "FOLLOW", "SLAVEOF", "CONFIG", "SHUTDOWN":
 		return true
 	}
 	for _, a := range v {
